@@ -1192,6 +1192,9 @@ func newOfficialRoaringIterator(data []byte) (*officialRoaringIterator, error) {
 		// start out pointed at where the offsets would have been.
 		r.currentDataOffset = uint32(offsetOffset)
 	} else {
+		if offsetOffset+int(r.keys*4) > len(data) {
+			return nil, fmt.Errorf("insufficient data for offsets: want %d bytes, got %d", offsetOffset+int(r.keys*4), len(data))
+		}
 		r.offsets = data[offsetOffset : offsetOffset+int(r.keys*4)]
 	}
 	// set key to -1; user should call Next first.
@@ -1280,10 +1283,15 @@ func (r *pilosaRoaringIterator) Next() (key uint64, cType byte, n int, length in
 	// a run container keeps its data after an initial 2 byte length header
 	var runCount uint16
 	if r.currentType == containerRun {
+		if int64(r.currentDataOffset)+runCountHeaderSize > int64(len(r.data)) {
+			r.Done(fmt.Errorf("container %d/%d, key %d, had run count at offset %d, maximum %d",
+				r.currentIdx, r.keys, r.currentKey, r.currentDataOffset, len(r.data)))
+			return r.Current()
+		}
 		runCount = binary.LittleEndian.Uint16(r.data[r.currentDataOffset : r.currentDataOffset+runCountHeaderSize])
 		r.currentDataOffset += 2
 	}
-	if r.currentDataOffset > uint32(len(r.data)) || r.currentDataOffset < headerBaseSize {
+	if r.currentDataOffset >= uint32(len(r.data)) || r.currentDataOffset < headerBaseSize {
 		r.Done(fmt.Errorf("container %d/%d, key %d, had offset %d, maximum %d",
 			r.currentIdx, r.keys, r.currentKey, r.currentDataOffset, len(r.data)))
 		return r.Current()
@@ -1333,10 +1341,15 @@ func (r *officialRoaringIterator) Next() (key uint64, cType byte, n int, length 
 	// a run container keeps its data after an initial 2 byte length header
 	var runCount uint16
 	if r.currentType == containerRun {
+		if int64(r.currentDataOffset)+runCountHeaderSize > int64(len(r.data)) {
+			r.Done(fmt.Errorf("container %d/%d, key %d, had run count at offset %d, maximum %d",
+				r.currentIdx, r.keys, r.currentKey, r.currentDataOffset, len(r.data)))
+			return r.Current()
+		}
 		runCount = binary.LittleEndian.Uint16(r.data[r.currentDataOffset : r.currentDataOffset+runCountHeaderSize])
 		r.currentDataOffset += 2
 	}
-	if r.currentDataOffset > uint32(len(r.data)) || r.currentDataOffset < headerBaseSize {
+	if r.currentDataOffset >= uint32(len(r.data)) || r.currentDataOffset < headerBaseSize {
 		r.Done(fmt.Errorf("container %d/%d, key %d, had offset %d, maximum %d",
 			r.currentIdx, r.keys, r.currentKey, r.currentDataOffset, len(r.data)))
 		return r.Current()
@@ -1359,7 +1372,11 @@ func (r *officialRoaringIterator) Next() (key uint64, cType byte, n int, length 
 		for i := range newRuns {
 			newRuns[i].last += newRuns[i].start
 		}
-		r.currentPointer = (*uint16)(unsafe.Pointer(&newRuns[0]))
+		if len(newRuns) > 0 {
+			r.currentPointer = (*uint16)(unsafe.Pointer(&newRuns[0]))
+		} else {
+			r.currentPointer = nil
+		}
 		r.currentLen = int(runCount)
 		size = r.currentLen * 4
 	}
